@@ -1835,6 +1835,7 @@ demux_ts_packet			(vbi_dvb_demux *	dx,
 			/* Got all data from this TS packet. */
 			dx->ts_wrap.consume = 0;
 
+		ts_payload_copied:
 			if (0 == dx->ts_pes_todo) {
 				const uint8_t *p;
 				unsigned int left;
@@ -2203,6 +2204,12 @@ demux_ts_packet			(vbi_dvb_demux *	dx,
 			lookahead = MIN (lookahead, TS_HEADER_LOOKAHEAD);
 			dx->ts_wrap.lookahead =
 				TS_HEADER_LOOKAHEAD - lookahead;
+
+			/* Here the entire payload has been copied at
+			   once, so a PES packet which fits in this
+			   TS packet is complete now. */
+			if (0 == dx->ts_pes_todo)
+				goto ts_payload_copied;
 		}
 
 		continue;
